@@ -436,6 +436,39 @@ var scenarios = []scenario{
 		dump(w)
 		return nil
 	}},
+	{"failures+term", func(w *sim.World) error {
+		id, st, err := newEnv(w)
+		if err != nil {
+			return err
+		}
+		st, err = control(w, id, pb.ControlEnvironmentRequest_START_ACTIVITY)
+		rn, _ := w.Consul.Get("o2/runtime/run_number")
+		fmt.Printf("env %s START_ACTIVITY -> %q err %v; run_number in KV: %s\n", id, st, err, rn)
+		dump(w)
+		var t2 sim.TaskRecord
+		for _, t := range w.Tasks() {
+			if t.Host == "host2" {
+				t2 = t
+			}
+		}
+		fmt.Printf("executor %s on host2 fails (FAILURE event, tasks reported TASK_FAILED by the agent)\n", t2.ExecutorID)
+		w.Master.InjectExecutorFailure(t2.AgentID, t2.ExecutorID, 9, true)
+		st, err = w.WaitEnvState(id, ceiling, "ERROR", "")
+		fmt.Printf("environment state: %q (err %v)\n  sim tasks: %s\n  core tasks: %s\n", st, err, tasksLine(w), coreTasks(w))
+		dump(w)
+		n := 0
+		for _, e := range w.CoreEvents() {
+			if e.Topic == "aliecs.environment" {
+				n++
+			}
+		}
+		fmt.Printf("core published %d events, %d on aliecs.environment\n", len(w.CoreEvents()), n)
+		fmt.Println("SIGTERM to the core")
+		err = w.TermCore()
+		fmt.Printf("core exited (err %v); sim tasks: %s\n", err, tasksLine(w))
+		dump(w)
+		return nil
+	}},
 	{"hook", func(w *sim.World) error {
 		if err := w.SetTaskClass("thook", taskClass("thook", "hook")); err != nil {
 			return err
